@@ -43,7 +43,7 @@ Init == l = 1
 Next == /\ l <= Len(Events)
         /\ LET e == Events[l] IN
              IF Accept(e) THEN TRUE
-             ELSE KnownStaleIds(e) /\ PrintT(<<"@@", "KF", "C19-direct-install-stale-ids", e.i>>)
+             ELSE e.op \in {"probe", "fresh"} /\ KnownStaleIds(e) /\ PrintT(<<"@@", "KF", "C19-direct-install-stale-ids", e.i>>)
         /\ l' = l + 1
 Spec == Init /\ [][Next]_l
 Reached == PrintT(<<"@@", "REACHED", TLCGet("stats").diameter - 1>>)
